@@ -11,6 +11,9 @@ LABELS = ["channel", "schema_unchanged", "config_unchanged", "fault"]
 
 def templates(tier, seed):
     ts = [Template(tid, tmpl.pick(fn, ["channel"]), args) for tid, fn, args in tmpl.standard_cases(tier)]
+    import tmpl_pl
+
+    ts += [Template(tid, tmpl.pick(fn, ["channel"]), args) for tid, fn, args in tmpl_pl.standard_cases(tier) + tmpl_pl.subsample_cases(tier)[-3:]]
     N = 2
     for which in tmpl.UNUSUAL:
         ts.append(Template(f"U/{which}/N={N}", tmpl.pick(tmpl.unusual_case, LABELS + ["input_unchanged"]), (which, N)))
